@@ -133,7 +133,9 @@ class Runner:
         tl, pb = core.tracklist, core.playback
         k = op[0]
         if k == "add":
-            return ("tlts", tl.add(tracks=[env.track(i) for i in op[1]], at_position=op[2]))
+            # a negative index stands for an argument that is not a Track
+            return ("tlts", tl.add(tracks=[env.track(i) if i >= 0 else f"not-a-track{i}" for i in op[1]],
+                                   at_position=op[2]))
         if k == "clear":
             return ("none", tl.clear())
         if k == "move":
@@ -184,11 +186,7 @@ class Runner:
         if k == "tick":
             a = env.audio
             if a.uri is not None and a.state == core_env.PLAYING:
-                p = a.pos + op[1]
-                n = env.lengths[env.index_of_uri(a.uri)]
-                if n is not None and p > n:
-                    p = max(n, a.pos)  # the clock does not run past the end of the track
-                a.pos = p
+                a.pos = a.pos + op[1]   # Track.length is metadata: the stream may run past it
             return ("none", None)
         if k == "save":
             return ("none", core._save_state())
@@ -197,7 +195,10 @@ class Runner:
         if k == "sethistory":
             from mopidy.models import Ref
 
-            core.history._history = [(1000 + i, Ref.track(uri=env.uri_of(t), name=f"n{t}"))
+            # newest first; sessions with an odd number of entries come from a machine whose clock
+            # was ahead (timestamps in the future)
+            base = 4_000_000_000_000 if len(op[1]) % 2 else 100_000
+            core.history._history = [(base - i, Ref.track(uri=env.uri_of(t), name=f"n{t}"))
                                      for i, t in enumerate(op[1])]
             return ("none", None)
         raise AssertionError(op)
@@ -280,6 +281,7 @@ class Runner:
             "volume": env.mixer_volume, "mute": env.mixer_mute, "tl_len_before": None,
             "protocol_violations": a.protocol_violations, "atf_done": a.atf_done,
             "delivered": self.last_delivered,
+            "shuffled": [x.tlid for x in getattr(core.tracklist, "_shuffled", [])],
         })
         return obs, diverged
 
